@@ -35,7 +35,7 @@ REL_PREDS = {"mandatory": "is_mandatory", "optional": "is_optional", "or": "is_o
 
 def plan(tier, seed):
     return [{"shard": i, "nshards": NSHARDS, "nmax": 6 if tier == "quick" else 7,
-             "n_random": 240 if tier == "quick" else 3000,
+             "n_random": 240 if tier == "quick" else 3000, "n_formulas": 6000 if tier == "quick" else 10 ** 9,
              "corpus_max": 1000 if tier == "quick" else 10 ** 9} for i in range(NSHARDS)]
 
 
@@ -96,6 +96,14 @@ def cases(desc):
     for j in range(desc["n_random"]):
         if j % n == i:
             yield "random", rand_rich_model(rand.rng(seed, "c03", j)), None
+    # constraint-kind listings over the enumerated depth<=2 formulas (150 constraints per model)
+    allf = [f for f in formulas.formulas(2) if isinstance(f, list)]
+    if len(allf) > desc.get("n_formulas", 10 ** 9):
+        allf = rand.rng(seed, "c03f").sample(allf, desc["n_formulas"])
+    mine = [f for k, f in enumerate(allf) if k % n == i]
+    tree = {"name": "R", "rels": [{"min": 0, "max": 1, "children": [{"name": x, "rels": []}]} for x in "ABC"]}
+    for c in range(0, len(mine), 150):
+        yield "formula-pool", {"root": tree, "ctcs": [{"name": f"f{k}", "ast": a} for k, a in enumerate(mine[c:c + 150])]}, None
     files = [(p, s) for p, s in corpus.fama_files() if (s or 0) <= desc["corpus_max"]]
     for j, (p, s) in enumerate(files):
         if j % n == i:
@@ -238,6 +246,31 @@ def judge(acc, cls, model, payload, ref_ctc_asts=None):
         if ids(got) != ids(want):
             bad("constraint-listing", f"FeatureModel.{getter}", f"{len(got)} listed, {len(want)} by predicate")
     if ref_ctc_asts is not None:
+        # the requires / excludes listings are what the constraints' meaning implies: a listed constraint is
+        # equivalent to l => r (resp. not(l and r)) for two of its names, and every constraint written in one of
+        # the documented simple forms is listed
+        try:
+            req_ids = ids(model.get_requires_constraints())
+            exc_ids = ids(model.get_excludes_constraints())
+        except Exception:  # noqa: BLE001 - judged by C18
+            req_ids = exc_ids = None
+        if req_ids is not None:
+            for c, ast in zip(ctcs, ref_ctc_asts):
+                if not S.is_logical_ast(ast) or len(S.ast_names(ast)) > 6:
+                    continue
+                nm = sorted(S.ast_names(ast))
+                pairs = [(a, b) for a in nm for b in nm]
+                is_req = any(S.equivalent(ast, ["IMPLIES", a, b]) is True for a, b in pairs)
+                is_exc = any(S.equivalent(ast, ["NOT", ["AND", a, b]]) is True for a, b in pairs)
+                if req_ids[id(c)] and not is_req:
+                    bad("constraint-listing-meaning", "FeatureModel.get_requires_constraints", f"{ast} listed as requires")
+                if exc_ids[id(c)] and not is_exc:
+                    bad("constraint-listing-meaning", "FeatureModel.get_excludes_constraints", f"{ast} listed as excludes")
+                form = simple_form(ast)
+                if form == "requires" and not req_ids[id(c)]:
+                    bad("constraint-listing-meaning", "FeatureModel.get_requires_constraints", f"{ast} (documented form) not listed")
+                if form == "excludes" and not exc_ids[id(c)]:
+                    bad("constraint-listing-meaning", "FeatureModel.get_excludes_constraints", f"{ast} (documented form) not listed")
         for c, ast in zip(ctcs, ref_ctc_asts):
             ops = S.ast_ops(ast)
             want = {"is_logical_constraint": all(o in S.LOGICAL for o in ops),
@@ -252,10 +285,33 @@ def judge(acc, cls, model, payload, ref_ctc_asts=None):
     return problems
 
 
+def simple_form(ast):
+    """'requires' / 'excludes' when the tree is written in one of the seven documented simple forms."""
+    def term(x):
+        return isinstance(x, str)
+
+    def neg(x):
+        return isinstance(x, list) and x[0] == "NOT" and term(x[1])
+    if not isinstance(ast, list) or len(ast) != 3:
+        return None
+    op, a, b = ast
+    if op in ("REQUIRES", "IMPLIES") and term(a) and term(b):
+        return "requires"
+    if op == "OR" and ((neg(a) and term(b)) or (term(a) and neg(b))):
+        return "requires"
+    if op == "EXCLUDES" and term(a) and term(b):
+        return "excludes"
+    if op == "IMPLIES" and term(a) and neg(b):
+        return "excludes"
+    if op == "OR" and neg(a) and neg(b):
+        return "excludes"
+    return None
+
+
 def run_case(acc, source, spec, path, seed=0):
     from flamapy.metamodels.fm_metamodel import transformations as T
     payload = {"source": source, "path": path,
-               "spec": spec if spec is not None and len(S.feature_names(spec)) <= 40 else None}
+               "spec": spec if spec is not None and len(S.feature_names(spec)) <= 40 and len(spec.get("ctcs", [])) <= 40 else None}
     models = []
     if path is not None:
         ok, m = guard(acc, source, "XMLReader", [], payload,
